@@ -49,6 +49,19 @@ func TestC16(t *testing.T) {
 		if c.Argv == nil {
 			c.Argv = []string{}
 		}
+		if chance(rt, 1, 3, "secondrun") {
+			if nopts+nargs > 0 && chance(rt, 2, 3, "sentence2") {
+				c.Argv2 = Spell(rt, dd, SampleItems(rt, dd, ast, GenCfg{}))
+			} else {
+				c.Argv2 = []string{}
+				for i, n := 0, rapid.IntRange(0, 3).Draw(rt, "nsoup2"); i < n; i++ {
+					c.Argv2 = append(c.Argv2, rapid.SampledFrom(Soup).Draw(rt, "soup2"))
+				}
+			}
+			if c.Argv2 == nil {
+				c.Argv2 = []string{}
+			}
+		}
 		Report(rt, "C16", "implicit", c, CheckC16(c, st))
 	})
 }
